@@ -4,18 +4,19 @@
 
 package table
 
-// One table's part of a scan: positions handed back are inside the table, and never behind the cursor.
+// One table's part of a scan: positions handed back are inside the table, and never behind the cursor (equal to it
+// only when the callback stopped the scan before accepting an entry, or count <= 0).
 //@ func (t *Table) Scan(cursor uint64, count int, f func(e storage.Entry) bool) (uint64, error)
 //@   props C12
 //@   trusted
 //@   requires #recv: t != nil
-//@   ensures #cursor [C12]: result.1 == nil && (result.0 == 0 || (cursor < result.0 && result.0 < t.allocated))
+//@   ensures #cursor [C12]: result.1 == nil && (result.0 == 0 || (cursor <= result.0 && result.0 < t.allocated))
 //@   modifies nothing
 
 //@ func (t *Table) ScanRegexMatch(cursor uint64, expr string, count int, f func(e storage.Entry) bool) (uint64, error)
 //@   props C12
 //@   trusted
 //@   requires #recv: t != nil
-//@   ensures #cursor [C12]: result.1 == nil ==> (result.0 == 0 || (cursor < result.0 && result.0 < t.allocated))
+//@   ensures #cursor [C12]: result.1 == nil ==> (result.0 == 0 || (cursor <= result.0 && result.0 < t.allocated))
 //@   modifies nothing
 
